@@ -2,7 +2,8 @@
  * Oracle inside the target: print_to into a heap String must equal prefix[:pos] + concatenation of what
  * snprintf gives per conversion for the C value the specification designates (literals verbatim), the
  * returned position must be pos + characters written, and show/look of every Int / Float / String
- * argument must round-trip consuming exactly the characters written.
+ * argument must round-trip consuming exactly the characters written; so must print_to / scan_from with a numeric
+ * specification (every integer width, f e g a for Float) placed between two literal '%'.
  * Build: clang -fsanitize=fuzzer,address (library objects with fuzzer-no-link).  A violation traps
  * (libFuzzer keeps the input as crash-*); FZ_EXPLAIN=1 prints the decoded case for a single input. */
 #include "Cello.h"
@@ -165,6 +166,37 @@ int LLVMFuzzerTestOneInput(const uint8_t* data, size_t size) {
     if (t is Float) {
       double x = c_float(a), y = c_float(back), d = x > y ? x - y : y - x, ax = x < 0 ? -x : x;
       if (d > 0.5e-6 + ax * 2.3e-16) { fail("Float round trip", c_str(txt), "", ""); }
+    }
+    del_raw(back); del_raw(txt);
+  }
+  /* print_to / scan_from with a numeric specification between two literal '%' (C15): the value comes back as C's
+  ** printf / scanf pair gives it (truncated to the named type on write, widened on read; Float within the printed digits) */
+  for (int i = 0; i < nargs; i++) {
+    var a = args[i]; var t = type_of(a);
+    if (t is String) { continue; }
+    static const char* ifmts[] = { "%li", "%ld", "%lx", "%lo", "%lu", "%i", "%d", "%hd", "%hhu", "%x", "%jX", "%zd", "%hhi", "%hu", "%o", "%lli" };
+    static const char* ffmts[] = { "%lf", "%le", "%lg", "%la", "%.17lg", "%lA", "%lE", "%.3lf" };
+    unsigned k = u8();
+    const char* sp = t is Int ? ifmts[k % 16] : ffmts[k % 8];
+    char f[40], rf[40]; snprintf(f, sizeof f, "%%%%%s%%%%;", sp);
+    /* the reader's specification carries no precision */
+    snprintf(rf, sizeof rf, "%%%%%s%%%%;", strcmp(sp, "%.17lg") is 0 ? "%lg" : strcmp(sp, "%.3lf") is 0 ? "%lf" : sp);
+    var txt = new_raw(String, $S(prefix));
+    var back = t is Int ? (var)new_raw(Int, $I(-77)) : (var)new_raw(Float, $F(-77.5));
+    var volatile e3 = NULL; volatile int w = -1, rd = -1;
+    try { w = print_to(txt, (int)pos, f, a); append(txt, $S(" #")); rd = scan_from(txt, (int)pos, rf, back); } catch (e) { e3 = e; }
+    if (e3) { fail("print_to/scan_from raised", f, c_str(e3), c_str(txt)); }
+    if (rd isnt w) { fail("scan_from consumed a different number of characters than print_to wrote", f, c_str(txt), ""); }
+    if (t is Int) {
+      int64_t v = c_int(a), want = v; k = k % 16;
+      if (k is 5 or k is 6) { want = (int)v; } else if (k is 7) { want = (short)v; } else if (k is 8) { want = (unsigned char)v; }
+      else if (k is 9 or k is 14) { want = (unsigned)v; } else if (k is 12) { want = (signed char)v; } else if (k is 13) { want = (unsigned short)v; }
+      if (c_int(back) isnt want) { fail("Int print/scan round trip", f, c_str(txt), ""); }
+    } else {
+      double x = c_float(a), y = c_float(back), d = x > y ? x - y : y - x, ax = x < 0 ? -x : x, tol = ax * 2.3e-16;
+      k = k % 8;
+      if (k is 0) { tol += 0.5e-6; } else if (k is 1 or k is 6) { tol += ax * 0.5e-6; } else if (k is 2) { tol += ax * 0.5e-5; } else if (k is 7) { tol += 0.5e-3; }
+      if (d > tol and not (y - y isnt 0.0 and ax > 1.7e308)) { fail("Float print/scan round trip", f, c_str(txt), ""); }
     }
     del_raw(back); del_raw(txt);
   }
